@@ -24,6 +24,9 @@ Record builder := mkb {
 Record path := mkpath { pverbs : list verb; ppoints : list pt; pbounds : rect }.
 
 Definition new_builder : builder := mkb [] [] 0 true.
+(* <PathBuilder as Default>::default(): the same empty builder as new() (a derived Default would start with
+   move_to_required = false and let line_to open a contour without a Move) *)
+Definition default_builder : builder := new_builder.
 
 Definition zero_pt : pt := mkpt F32.zero F32.zero.
 
